@@ -935,6 +935,28 @@ thread_local! {
     pub static ERRORS_ARE_NOOPS: std::cell::Cell<bool> = const { std::cell::Cell::new(false) };
 }
 
+/// Key prefix of a conflict-copy whose NAME the reference hub leaves open (`<prefix><n>\0<path>`): it must be found in
+/// the real tree under some name starting with `<path>.conflict-`.
+const FLOAT: &str = "\u{0}float:";
+
+/// Does the real final tree equal the reference state, with open-named conflict-copies matched by prefix + content?
+fn final_matches(state: &Files, final_tree: &Files) -> bool {
+    let mut fin = live(final_tree);
+    for (k, v) in live(state).iter().filter(|(k, _)| !k.starts_with(FLOAT)) {
+        if fin.get(k) != Some(v) {
+            return false;
+        }
+        fin.remove(k);
+    }
+    for (k, v) in state.iter().filter(|(k, _)| k.starts_with(FLOAT)) {
+        let path = k.rsplit('\u{0}').next().unwrap_or("");
+        let pre = format!("{path}.conflict-");
+        let Some(hit) = fin.iter().find(|(q, b)| q.starts_with(&pre) && *b == v).map(|(q, _)| q.clone()) else { return false };
+        fin.remove(&hit);
+    }
+    fin.is_empty()
+}
+
 /// In the flat reference hub a path "is a directory" when some live file lives beneath it.
 fn ref_is_dir(state: &Files, path: &str) -> bool {
     let pre = format!("{path}/");
@@ -957,7 +979,22 @@ fn ref_apply(state: &mut Files, rec: &OpRec) -> Reply {
                 state.insert(path.clone(), content.clone());
                 Reply::PutResult { committed: true, current: Some(h(content)) }
             } else {
-                state.insert(format!("{path}.conflict-{}", short(&h(content))), content.clone());
+                let cn = format!("{path}.conflict-{}", short(&h(content)));
+                match state.get(&cn) {
+                    // the natural name is taken by OTHER content (somebody committed to that very path): neither may
+                    // vanish, so the copy lives under some other name next to the path — the model leaves the name open
+                    Some(other) if other != content => {
+                        // (the same bytes kept earlier under an open name are not kept twice)
+                        let suffix = format!("\u{0}{path}");
+                        if !state.iter().any(|(k, v)| k.starts_with(FLOAT) && k.ends_with(&suffix) && v == content) {
+                            let n = state.keys().filter(|k| k.starts_with(FLOAT)).count();
+                            state.insert(format!("{FLOAT}{n}{suffix}"), content.clone());
+                        }
+                    }
+                    _ => {
+                        state.insert(cn, content.clone());
+                    }
+                }
                 Reply::PutResult { committed: false, current: cur }
             }
         }
@@ -974,7 +1011,7 @@ fn ref_apply(state: &mut Files, rec: &OpRec) -> Reply {
             Some(b) => Reply::Content { len: b.len() as u64, hash: h(b), bytes: b.clone() },
             None => Reply::Error(String::new()),
         },
-        Op::List => Reply::Fingerprints(state.iter().map(|(k, v)| (k.clone(), h(v))).collect()),
+        Op::List => Reply::Fingerprints(state.iter().filter(|(k, _)| !k.starts_with(FLOAT)).map(|(k, v)| (k.clone(), h(v))).collect()),
     }
 }
 
@@ -1036,7 +1073,7 @@ pub fn linearizable(init: &Files, ops: &[OpRec], final_tree: &Files, split_lists
 
 fn dfs(state: Files, its: &[(LOp, usize, usize)], ops: &[OpRec], used: &mut Vec<bool>, done: usize, final_tree: &Files) -> bool {
     if done == its.len() {
-        return live(&state) == live(final_tree);
+        return final_matches(&state, final_tree);
     }
     for i in 0..its.len() {
         if used[i] {
